@@ -250,6 +250,29 @@ type recClient struct {
 	rec    *recorder
 	writer int
 	intent callJ
+	// race gate (conflict chains): when armed, the first invocation of a CAS function that wants to WRITE is logged as
+	// an "attempt", the recorder's lock is dropped and the writer waits inside the function - between the store's read
+	// and its conditional write - until the driver has let other writers commit; the store then refuses the stale
+	// write and the real retry loop runs the function again.
+	armed   bool
+	paused  bool
+	release chan struct{}
+	probe   bool // a read of the driver itself (GetPartitionState): not an event
+}
+
+func (c *recClient) arm() {
+	c.rec.mu.Lock()
+	c.armed, c.paused = true, false
+	c.release = make(chan struct{})
+	c.rec.mu.Unlock()
+}
+
+// disarm returns whether the writer is waiting at the gate.
+func (c *recClient) disarm() bool {
+	c.rec.mu.Lock()
+	defer c.rec.mu.Unlock()
+	c.armed = false
+	return c.paused
 }
 
 func (c *recClient) setIntent(i callJ) {
@@ -277,7 +300,7 @@ func (c *recClient) CAS(ctx context.Context, key string, f func(in any) (out any
 	r.mu.Lock()
 	defer r.mu.Unlock()
 	var in, out ringJ
-	calls, wrote := 0, false
+	calls, wrote, raced := 0, false, false
 	var ferr error
 	err := c.Client.CAS(ctx, key, func(v any) (any, bool, error) {
 		calls++
@@ -288,10 +311,35 @@ func (c *recClient) CAS(ctx context.Context, key string, f func(in any) (out any
 		if wrote {
 			out = r.project(o)
 		}
+		if wrote && c.armed {
+			// a stale write in the making: log what the function decided on what it read, then let others commit
+			c.armed, c.paused, raced = false, true, true
+			r.emit(map[string]any{"ev": "attempt", "w": c.writer, "now": r.now(), "in": in, "out": out, "wrote": true, "res": "ok", "call": c.intent})
+			rel := c.release
+			r.mu.Unlock()
+			<-rel
+			r.mu.Lock()
+			c.paused = false
+		}
 		return o, retry, e
 	})
-	if calls != 1 {
-		r.fail("writer %d: CAS function ran %d times although writers are serialised", c.writer, calls)
+	if calls != 1 && !(raced && calls == 2) {
+		r.fail("writer %d: CAS function ran %d times (raced=%v) although un-gated writers are serialised", c.writer, calls, raced)
+	}
+	if raced {
+		r.stats["race gated writes"]++
+		if calls == 2 {
+			r.stats["race real CAS conflicts"]++
+			r.chainInteresting = true
+			switch {
+			case ferr != nil:
+				r.stats["race retry refused"]++
+			case !wrote:
+				r.stats["race retry found nothing to do"]++
+			default:
+				r.stats["race retry wrote"]++
+			}
+		}
 	}
 	if err != nil && ferr == nil {
 		r.fail("writer %d: store refused a serialised CAS: %v", c.writer, err)
@@ -303,7 +351,7 @@ func (c *recClient) CAS(ctx context.Context, key string, f func(in any) (out any
 			res = "ok"
 		}
 	}
-	ev := map[string]any{"ev": "cas", "w": c.writer, "now": r.now(), "in": in, "wrote": wrote, "res": res, "call": c.intent}
+	ev := map[string]any{"ev": "cas", "w": c.writer, "now": r.now(), "in": in, "wrote": wrote, "res": res, "call": c.intent, "tries": calls}
 	if wrote {
 		ev["out"] = out
 		for i := range in.Parts {
@@ -338,6 +386,9 @@ func (c *recClient) Get(ctx context.Context, key string) (any, error) {
 		r.fail("writer %d: Get: %v", c.writer, err)
 		return v, err
 	}
+	if c.probe {
+		return v, err
+	}
 	r.emit(map[string]any{"ev": "get", "w": c.writer, "now": r.now(), "in": r.project(v)})
 	return v, err
 }
@@ -350,6 +401,7 @@ type step struct {
 	S    string
 	B    bool // start: create; stop: remove; lock: locked
 	Cfg  [3]int
+	Sub  []step // race: Sub[0] is gated at its first write attempt, Sub[1] commits meanwhile; tick: nothing
 }
 
 func (s step) String() string {
@@ -366,6 +418,10 @@ func (s step) String() string {
 		return fmt.Sprintf("lock(p%d,%v)", s.P, s.B)
 	case "rmowner":
 		return fmt.Sprintf("rmowner(l%d,p%d)", s.L, s.P)
+	case "tick":
+		return fmt.Sprintf("tick(l%d)", s.L)
+	case "race":
+		return fmt.Sprintf("race(%v | %v)", s.Sub[0], s.Sub[1])
 	}
 	return s.Kind
 }
@@ -384,6 +440,11 @@ type world struct {
 	lcs    map[int]*lcState
 	editor *ring.PartitionRingEditor
 	edCli  *recClient
+	// a second editor (another operator) for requests that race with one of the first
+	editor2   *ring.PartitionRingEditor
+	edCli2    *recClient
+	armNew    bool // the next started lifecycler is gated at its first write
+	observing bool // GetPartitionState of every running lifecycler after every step
 }
 
 func (w *world) ownerID(l, p int) string {
@@ -406,10 +467,71 @@ func (w *world) applicable(s step) bool {
 		return w.lcs[s.L] != nil
 	case "lc":
 		return w.lcs[s.L] != nil && w.lcs[s.L].lc.State() == services.Running
+	case "tick":
+		return w.lcs[s.L] != nil && w.lcs[s.L].lc.State() == services.Running
+	case "race":
+		return w.applicable(s.Sub[0])
 	case "rmowner":
 		return w.multi && (w.rec.ownerIndex(w.ownerID(s.L, s.P), false) != 0 || len(w.rec.owners) < traceNO)
 	}
 	return true
+}
+
+// call performs one request step without waiting for quiescence; alt = through the second editor.
+func (w *world) call(s step, alt bool) {
+	r := w.rec
+	ed, cli := w.editor, w.edCli
+	if alt {
+		ed, cli = w.editor2, w.edCli2
+	}
+	switch s.Kind {
+	case "lc":
+		st := w.lcs[s.L]
+		st.client.setIntent(callJ{Kind: "LcChangeState", S: s.S})
+		_ = st.lc.ChangePartitionState(w.ctx, pstate(s.S))
+		st.client.setIntent(noCall)
+	case "ed":
+		cli.setIntent(callJ{Kind: "EditorChangeState", P: s.P, S: s.S})
+		_ = ed.ChangePartitionState(w.ctx, int32(s.P-1), pstate(s.S))
+		cli.setIntent(noCall)
+	case "lock":
+		cli.setIntent(callJ{Kind: "EditorSetLock", P: s.P, B: s.B})
+		_ = ed.SetPartitionStateChangeLock(w.ctx, int32(s.P-1), s.B)
+		cli.setIntent(noCall)
+	case "rmowner":
+		r.mu.Lock()
+		o := r.ownerIndex(w.ownerID(s.L, s.P), true)
+		r.mu.Unlock()
+		cli.setIntent(callJ{Kind: "EditorRemoveOwner", O: o})
+		_ = ed.RemoveMultiPartitionOwner(w.ctx, fmt.Sprintf("i-%d", s.L), int32(s.P-1))
+		cli.setIntent(noCall)
+	}
+}
+
+// observe binds PartitionInstanceLifecycler.GetPartitionState of every running lifecycler: what it reports must be
+// the specification's state of its partition in the current ring (event "state"; the read itself is not an event).
+func (w *world) observe() {
+	r := w.rec
+	for l := 1; l <= traceNL; l++ {
+		st := w.lcs[l]
+		if st == nil || st.lc.State() != services.Running {
+			continue
+		}
+		st.client.probe = true
+		ps, ts, err := st.lc.GetPartitionState(w.ctx)
+		st.client.probe = false
+		got, at := "X", 0
+		switch {
+		case err == nil:
+			got, at = stName(ps), r.rel(ts.Unix())
+		case !errors.Is(err, ring.ErrPartitionDoesNotExist):
+			got = "?" + err.Error()
+		}
+		r.mu.Lock()
+		r.emit(map[string]any{"ev": "state", "now": r.now(), "l": l, "got": got, "ts": at})
+		r.stats["state observations"]++
+		r.mu.Unlock()
+	}
 }
 
 func (w *world) apply(s step) {
@@ -421,6 +543,11 @@ func (w *world) apply(s step) {
 		r.emit(map[string]any{"ev": "begin", "now": r.now(), "l": s.L, "p": s.P, "o": o, "cfg": s.Cfg[:], "create": s.B})
 		r.mu.Unlock()
 		cli := &recClient{Client: w.store, rec: r, writer: s.L, intent: noCall}
+		gated := w.armNew
+		if gated {
+			w.armNew = false
+			cli.arm()
+		}
 		cfg := ring.PartitionInstanceLifecyclerConfig{
 			PartitionID:                          int32(s.P - 1),
 			InstanceID:                           fmt.Sprintf("i-%d", s.L),
@@ -437,7 +564,7 @@ func (w *world) apply(s step) {
 			r.fail("StartAsync: %v", err)
 		}
 		synctest.Wait()
-		if st := lc.State(); st != services.Running && !(st == services.Starting && !s.B) {
+		if st := lc.State(); st != services.Running && !(st == services.Starting && (!s.B || gated)) {
 			r.fail("lifecycler %d is %v after %v", s.L, st, s)
 		}
 	case "stop":
@@ -450,34 +577,111 @@ func (w *world) apply(s step) {
 		_ = st.lc.AwaitTerminated(w.ctx) // a lifecycler still waiting for its partition ends as Failed
 		synctest.Wait()
 		delete(w.lcs, s.L)
-	case "lc":
-		st := w.lcs[s.L]
-		st.client.setIntent(callJ{Kind: "LcChangeState", S: s.S})
-		_ = st.lc.ChangePartitionState(w.ctx, pstate(s.S))
-		st.client.setIntent(noCall)
-		synctest.Wait()
-	case "ed":
-		w.edCli.setIntent(callJ{Kind: "EditorChangeState", P: s.P, S: s.S})
-		_ = w.editor.ChangePartitionState(w.ctx, int32(s.P-1), pstate(s.S))
-		w.edCli.setIntent(noCall)
-		synctest.Wait()
-	case "lock":
-		w.edCli.setIntent(callJ{Kind: "EditorSetLock", P: s.P, B: s.B})
-		_ = w.editor.SetPartitionStateChangeLock(w.ctx, int32(s.P-1), s.B)
-		w.edCli.setIntent(noCall)
-		synctest.Wait()
-	case "rmowner":
-		r.mu.Lock()
-		o := r.ownerIndex(w.ownerID(s.L, s.P), true)
-		r.mu.Unlock()
-		w.edCli.setIntent(callJ{Kind: "EditorRemoveOwner", O: o})
-		_ = w.editor.RemoveMultiPartitionOwner(w.ctx, fmt.Sprintf("i-%d", s.L), int32(s.P-1))
-		w.edCli.setIntent(noCall)
+	case "lc", "ed", "lock", "rmowner":
+		w.call(s, false)
 		synctest.Wait()
 	case "sleep":
 		time.Sleep(time.Second)
 		synctest.Wait()
+	case "race":
+		w.race(s.Sub[0], s.Sub[1])
 	}
+	if w.observing && s.Kind != "race" {
+		w.observe()
+	}
+}
+
+// race: g is stopped at its first write attempt (inside the CAS function); x commits meanwhile; g is released into
+// the store's refusal and the real retry. If g has nothing to write the two steps simply run one after the other.
+func (w *world) race(g, x step) {
+	r := w.rec
+	var cli *recClient
+	done := make(chan struct{})
+	finish := func() {}
+	switch g.Kind {
+	case "tick": // the lifecycler's own reconciliation, at the first tick (of at most 3) on which it wants to write
+		cli = w.lcs[g.L].client
+		cli.arm()
+		for k := 0; k < 3; k++ {
+			time.Sleep(time.Second)
+			synctest.Wait()
+			r.mu.Lock()
+			p := cli.paused
+			r.mu.Unlock()
+			if p {
+				break
+			}
+		}
+		close(done)
+	case "start":
+		w.armNew = true
+		w.apply(g)
+		cli = w.lcs[g.L].client
+		close(done)
+	case "stop":
+		st := w.lcs[g.L]
+		cli = st.client
+		cli.arm()
+		st.lc.SetRemoveOwnerOnShutdown(g.B)
+		r.mu.Lock()
+		r.emit(map[string]any{"ev": "stop", "now": r.now(), "l": g.L, "remove": g.B})
+		r.mu.Unlock()
+		st.lc.StopAsync()
+		synctest.Wait()
+		close(done)
+		finish = func() {
+			_ = st.lc.AwaitTerminated(w.ctx)
+			synctest.Wait()
+			delete(w.lcs, g.L)
+		}
+	default:
+		cli = w.edCli
+		if g.Kind == "lc" {
+			cli = w.lcs[g.L].client
+		}
+		cli.arm()
+		go func() {
+			w.call(g, false)
+			close(done)
+		}()
+		synctest.Wait()
+	}
+	paused := cli.disarm()
+	if paused && w.applicable(x) {
+		if x.Kind == "ed" || x.Kind == "lock" || x.Kind == "rmowner" {
+			w.call(x, true)
+			synctest.Wait()
+		} else {
+			w.apply(x)
+		}
+	}
+	if paused {
+		close(cli.release)
+		synctest.Wait()
+	}
+	<-done
+	finish()
+	if !paused && w.applicable(x) {
+		w.apply(x)
+	}
+	if w.observing {
+		w.observe()
+	}
+}
+
+// raceable: x may run while g waits at the gate (x must not need the goroutine that waits).
+func raceable(g, x step) bool {
+	gl := 0
+	if g.Kind == "tick" || g.Kind == "lc" || g.Kind == "start" || g.Kind == "stop" {
+		gl = g.L
+	}
+	if x.Kind == "sleep" || x.Kind == "race" || x.Kind == "tick" {
+		return false // time does not pass inside a CAS of the in-memory store
+	}
+	if (x.Kind == "lc" || x.Kind == "start" || x.Kind == "stop") && x.L == gl {
+		return false
+	}
+	return true
 }
 
 // runChain executes one schedule in its own bubble. gen is asked for the next step until it returns
@@ -491,6 +695,9 @@ func runChain(t *testing.T, rec *recorder, multi bool, meta map[string]any, step
 		w := &world{rec: rec, ctx: context.Background(), store: store, multi: multi, lcs: map[int]*lcState{}}
 		w.edCli = &recClient{Client: store, rec: rec, writer: 0, intent: noCall}
 		w.editor = ring.NewPartitionRingEditor(ringKey, w.edCli)
+		w.edCli2 = &recClient{Client: store, rec: rec, writer: 0, intent: noCall}
+		w.editor2 = ring.NewPartitionRingEditor(ringKey, w.edCli2)
+		w.observing = meta["observe"] == true
 		defer func() {
 			for l, st := range w.lcs {
 				st.lc.StopAsync()
@@ -667,6 +874,52 @@ func prefixes(cfg [2][3]int) [][]step {
 	}
 }
 
+func racePrefixes(cfg [2][3]int) [][]step {
+	s1 := step{Kind: "start", L: 1, P: 1, B: true, Cfg: cfg[0]}
+	s21 := step{Kind: "start", L: 2, P: 1, B: true, Cfg: cfg[1]}
+	s22 := step{Kind: "start", L: 2, P: 2, B: true, Cfg: cfg[1]}
+	sl := step{Kind: "sleep"}
+	return [][]step{
+		{s1},
+		{s1, s22, sl},
+		{s1, s22, {Kind: "ed", P: 1, S: "I"}, {Kind: "stop", L: 1, B: true}}, // l2's clean-up tick will want to delete p1
+		{s1, {Kind: "lock", P: 1, B: true}},
+		{s1, s21, sl}, // two owners of p1 promote it on the same tick
+	}
+}
+
+// raceAlphabet: the steps that are gated (g) and the steps that commit meanwhile (x).
+func raceAlphabet(cfg [2][3]int) (gs, xs []step) {
+	gs = []step{
+		{Kind: "tick", L: 1},
+		{Kind: "tick", L: 2},
+		{Kind: "lc", L: 1, S: "A"},
+		{Kind: "lc", L: 1, S: "I"},
+		{Kind: "ed", P: 1, S: "A"},
+		{Kind: "ed", P: 1, S: "I"},
+		{Kind: "lock", P: 1, B: true},
+		{Kind: "lock", P: 1, B: false},
+		{Kind: "start", L: 3, P: 1, B: true, Cfg: cfg[1]},
+		{Kind: "start", L: 3, P: 2, B: true, Cfg: cfg[1]},
+		{Kind: "stop", L: 1, B: true},
+		{Kind: "stop", L: 2, B: true},
+	}
+	xs = []step{
+		{Kind: "lc", L: 1, S: "A"},
+		{Kind: "lc", L: 1, S: "I"},
+		{Kind: "lc", L: 2, S: "I"},
+		{Kind: "ed", P: 1, S: "A"},
+		{Kind: "ed", P: 1, S: "I"},
+		{Kind: "ed", P: 2, S: "I"},
+		{Kind: "lock", P: 1, B: true},
+		{Kind: "lock", P: 1, B: false},
+		{Kind: "start", L: 4, P: 1, B: true, Cfg: cfg[0]},
+		{Kind: "stop", L: 1, B: true},
+		{Kind: "stop", L: 2, B: true},
+	}
+	return gs, xs
+}
+
 func recordTrace(t *testing.T, res *abs.Result) {
 	dir := os.Getenv("VERIF_TRACE_DIR")
 	old := runtime.GOMAXPROCS(1) // same-instant reconciliations of different lifecyclers run in a stable order
@@ -755,6 +1008,51 @@ func recordTrace(t *testing.T, res *abs.Result) {
 		count(runChain(t, rec, false, map[string]any{"kind": "deletion-matrix", "schedule": names}, sched, false, nil))
 	}
 
+	// (a'') real CAS conflicts: after each prefix, one step g is stopped inside its CAS function at its first write
+	//       attempt (between the store's read and its conditional write), another writer's step x commits, and g runs
+	//       into the store's refusal and the code's own retry. Every attempt and every commit must be an enabled action
+	//       of its writer on the ring it read (PartitionRingTrace: "attempt" events change nothing).
+	nRace := abs.EnvInt("VERIF_RACE", 1)
+	for pi := 0; pi < nRace && rec.fatal == ""; pi++ {
+		cfg := cfgProfiles[(int(seed)+pi)%len(cfgProfiles)]
+		if seed < 0 {
+			cfg = cfgProfiles[pi%len(cfgProfiles)]
+		}
+		gs, xs := raceAlphabet(cfg)
+		for pfi, pf := range racePrefixes(cfg) {
+			started := map[int]bool{}
+			for _, s := range pf {
+				if s.Kind == "start" {
+					started[s.L] = true
+				} else if s.Kind == "stop" {
+					started[s.L] = false
+				}
+			}
+			needs := func(s step) bool {
+				switch s.Kind {
+				case "start":
+					return !started[s.L]
+				case "stop", "lc", "tick":
+					return started[s.L]
+				}
+				return true
+			}
+			for _, g := range gs {
+				for _, x := range xs {
+					if rec.fatal != "" || !raceable(g, x) || !needs(g) || !needs(x) {
+						continue
+					}
+					steps := append(append([]step{}, pf...), step{Kind: "race", Sub: []step{g, x}})
+					names := []string{}
+					for _, s := range steps {
+						names = append(names, s.String())
+					}
+					count(runChain(t, rec, false, map[string]any{"kind": "race", "prefix": pfi, "observe": true, "schedule": names}, steps, true, nil))
+				}
+			}
+		}
+	}
+
 	// (b) seeded long schedules: 1..4 lifecyclers, 2..4 partitions, with and without multi-partition owner ids
 	rnd := rand.New(rand.NewSource(seed*104729 + 15))
 	for k := 0; k < nRandom && rec.fatal == ""; k++ {
@@ -793,7 +1091,7 @@ func recordTrace(t *testing.T, res *abs.Result) {
 			}
 			return s, true
 		}
-		count(runChain(t, rec, multi, map[string]any{"kind": "random", "multi": multi, "nl": nl, "np": np}, nil, false, gen))
+		count(runChain(t, rec, multi, map[string]any{"kind": "random", "multi": multi, "nl": nl, "np": np, "observe": true}, nil, false, gen))
 		if k < 2 {
 			res.Sample(map[string]any{"mode": "trace", "kind": "random", "multi": multi, "lifecyclers": nl, "partitions": np, "schedule": descr})
 		}
